@@ -27,18 +27,17 @@ import (
 // limit) of the update range, and goes through the generic value pass (value -> bytes -> value,
 // over-limit refused) and byte pass (bytes -> value -> bytes on the encoding and its mutants).
 
-// c14BeaconMutants: also explore the truncation / extension / offset / byte mutants of the
-// synthetic encodings. Off by default: on the unchanged repository that pass reports
+// c14BeaconMutants: the truncation / extension / offset / byte mutants of the synthetic encodings
+// are explored too (VERIF_C14_BEACON_MUTANTS=0 switches the pass off). When it was first run it
+// reported two genuine defect families on the repository, both repaired since (/repo 072deb4,
+// b3f71a8; known_findings.json lists them as fixed):
 //   - every Forked* container (and the range, through its elements): the Bellatrix arm (a
-//     fixed-size container) accepts a scope longer than the container - surplus trailing bytes
-//     decode and re-encode shorter;
-//   - LightClientUpdateRange: an element of zero length (e.g. the input 04000000) is appended
-//     without being decoded, the range "decodes" to an update with a nil object and encoding
-//     it panics in (*ForkedLightClientUpdate).ByteLength.
-//
-// Both break "any byte string that decodes successfully re-encodes to the same bytes"; they were
-// reported, not worked around, and this pass was not extended further.
-var c14BeaconMutants = os.Getenv("VERIF_C14_BEACON_MUTANTS") == "1"
+//     fixed-size container) accepted a scope longer than the container - surplus trailing bytes
+//     decoded and re-encoded shorter;
+//   - LightClientUpdateRange: an element of zero length (e.g. the input 04000000) was appended
+//     without being decoded, the range "decoded" to an update with a nil object and encoding
+//     it panicked in (*ForkedLightClientUpdate).ByteLength.
+var c14BeaconMutants = os.Getenv("VERIF_C14_BEACON_MUTANTS") != "0"
 
 // c14Full: the tier, for the Vals functions that scale with it (set by runC14 / replayC14).
 var c14Full bool
